@@ -11,6 +11,8 @@ Copy i uses two letters (p, q); the kinds of classes of a copy:
              (Pq = words containing q, Ps = p*: the sibling is not an atom, the counted class has minimum size 1; gPq = g Pq)
   variant M: C = the words over (p|q) with one marked (upper-case) letter -> (A) with A = (p|q)*, by the constructor
              `Pointing` (count n * a_n): one child object corresponds to n parent objects (the backward map is not injective)
+  variant P: C = Aq x Ps used forwards (a product whose first factor is not an atom and has minimum size 1), everything
+             specified down to atoms: Aq = q + p Aq + q Aq, Ps = eps + p Ps
   variant S: C = (p|q)+ = X + swap(X): a union rule with the *same* child class twice, told apart by the child index only
 Root R = g + C1 + ... + Ck  (`g` a one-letter atom). Everything the oracle needs is generated directly from these
 definitions (`words`), independently of the library. The classes duck-type upword.PW for the shared helpers
@@ -71,7 +73,15 @@ def _words(name, n, sig):
         return ["g" + t for t in _words("Pq" + k, n - 1, sig)] if n >= 1 else []
     if kind == "A":
         return list(_tails(p, q, n))
+    if kind == "Eps":
+        return [""] if n == 0 else []
+    if kind in ("pAq", "qAq"):
+        return [(p if kind == "pAq" else q) + w for w in _words("Aq" + k, n - 1, sig)] if n >= 1 else []
+    if kind == "pPs":
+        return [p * n] if n >= 1 else []
     if kind == "C":
+        if v == "P":
+            return _words("Pq" + k, n, sig)
         if v == "M":
             return [w[:i] + w[i].upper() + w[i + 1:] for w in _tails(p, q, n) for i in range(n)]
         if v == "Q":
@@ -98,7 +108,7 @@ class GL(CombinatorialClass):
         return self.name[:-1] == "E"
 
     def is_atom(self):
-        return self.name == "G" or self.name[:-1] in ("T", "Y")
+        return self.name == "G" or self.name[:-1] in ("T", "Y", "Eps")
 
     def minimum_size_of_object(self):
         return _min(self.name, self.sig)
@@ -180,7 +190,7 @@ class GProd(_Table, CartesianProductStrategy):
         yield W("".join(objs))
 
     def forward_map(self, c, obj, children=None):
-        if c.name.startswith("Pq"):  # up to the last q, then the trailing p's
+        if c.name.startswith("Pq") or (c.name.startswith("C") and c.sig[int(c.name[-1])] == "P"):  # up to the last q, then the trailing p's
             _, q = LETTERS[int(c.name[-1])]
             i = str(obj).rindex(q) + 1
             return (W(obj[:i]), W(obj[i:]))
@@ -328,6 +338,14 @@ def inner_pack(sig):
             continue
         if v == "M":
             point["C" + k] = ("A" + k,)
+            continue
+        if v == "P":
+            prod["C" + k] = ("Aq" + k, "Ps" + k)
+            union["Aq" + k] = ("T" + k, "pAq" + k, "qAq" + k)
+            prod["pAq" + k] = ("Y" + k, "Aq" + k)
+            prod["qAq" + k] = ("T" + k, "Aq" + k)
+            union["Ps" + k] = ("Eps" + k, "pPs" + k)
+            prod["pPs" + k] = ("Y" + k, "Ps" + k)
             continue
         if v == "Q":
             union["C" + k] = ("Aq" + k, "Y" + k, "gPq" + k)
